@@ -109,7 +109,11 @@ def rand_item(rng, item_id, pool, rich=True, tag='item'):
     if rich and rng.random() < 0.4:
         extra.append(rich_blob(rng, 2, pool, 'mosAbstract'))
     if rng.random() < 0.3:
-        sc = E('studioCommand', None, E('text', rng.choice(pool + [None])), attrib={'type': rng.choice(['note', 'cue'])})
+        sc = E('studioCommand', None, attrib={'type': rng.choice(['note', 'note', 'cue'])})
+        if rng.random() < 0.8:
+            sc.append(E('text', rng.choice(pool + [None])))
+        else:
+            sc.append(E('duration', '3'))        # a note command without any <text>
         wrap = E('x', None, sc) if rng.random() < 0.5 else sc
         extra.append(E('mosExternalMetadata', None, E('mosSchema', 'http://n'), E('mosPayload', None, wrap)))
     slug = rng.choice(pool) if rng.random() < 0.8 else None
@@ -161,7 +165,7 @@ def rand_meta(rng, pool, used, schemas=('http://s/1', 'http://s/2', 'http://s/3'
         return E('mosExternalMetadata', None, E('mosScope', 'PLAYLIST'), E('mosSchema', c[1]),
                  E('mosPayload', None, rich_blob(rng, 2, pool, 'info')))
     used.add((c, None))
-    return E(c, rng.choice(pool))
+    return E(c, rng.choice(pool + [None]))       # None: an empty element such as <roTrigger/>
 
 
 def rand_ro(rng, n_stories=None, meta_layout=None, pool=None, timing='any', ids=None,
@@ -315,7 +319,10 @@ def rand_message(rng, state, kind, message_id, ids, pool=None, ro_id='RO', timin
         t = rand_timing(rng, timing)
         if t is not None:
             fields.append(t)
-        fields.insert(rng.randint(0, len(fields)), 'BODY')
+        if rng.random() < 0.15:
+            fields.insert(0, 'BODY0')               # storyBody before roID / storyID
+        else:
+            fields.insert(rng.randint(0, len(fields)), 'BODY')
         return B.msg_doc(kind, message_id, ro_id, story_ref=k, body=body, fields=fields, **kw)
 
     # ---- item level
